@@ -19,7 +19,8 @@ LEVEL_TEXT = ("Bounded history contract on the real Pipeline.map / create_learne
               "computes nothing; the same for the learners of create_learners (with and without "
               "split_independent_axes) driven in random order within each generation. Proved part (pyvc): "
               "_existing_and_missing_indices - a piece's work list is exactly the increasing list of *selected* "
-              "(fixed-mask) indices with some output absent, for all arrays and masks; building the mask "
+              "(fixed-mask) indices with some output absent, for all arrays and masks - and "
+              "_is_parameter_reduced_by_function (when a function takes an array whole); building the mask "
               "(_mask_fixed_axes: numpy fancy indexing) and the adaptive learners are outside the proof rung, so the "
               "property itself is decided on the bounded rung: 'exploration'.")
 LEVEL_NOTE = ("Bounds: programs of 1..3 functions, rank<=2, axis sizes 1..3, storage file_array / dict. Trusted: "
@@ -35,15 +36,18 @@ ASSUMPTIONS = ["user functions deterministic"]
 
 
 def registry():
-    from contracts import misc
-    return {**{c.short: c for c in misc.ALL}, **{c.name: c for c in misc.ALL}}
+    from contracts import mapspec, misc
+    allc = misc.ALL + mapspec.ALL
+    return {**{c.short: c for c in allc}, **{c.name: c for c in allc}}
 
 
 def proof_items():
     from contracts import misc
     from vf.driver import ProofItem
     # which elements a piece computes: exactly the selected (fixed-mask) indices that are not stored yet
-    return [ProofItem(misc.existing_and_missing, gen=misc.em_gen, call=misc.em_call)]
+    return [ProofItem(misc.existing_and_missing, gen=misc.em_gen, call=misc.em_call),
+            # when a function takes an array whole, all its axes are reduced (and may not be fixed)
+            ProofItem(misc.is_parameter_reduced, gen=misc.ipr_gen)]
 
 
 # ---- reference notions ------------------------------------------------------------------------------------------
